@@ -226,7 +226,7 @@ class FieldCodeGenerator:
                 if self._optional:
                     expression = f'None if {self._name} is None else {expression}'
         elif isinstance(field_type, StringType):
-            expression = f'"{self._hardcoded_value}"'
+            expression = _string_literal(self._hardcoded_value)
         elif isinstance(field_type, BoolType):
             expression = "True" if self._hardcoded_value == "true" else "False"
         else:
@@ -441,7 +441,7 @@ class FieldCodeGenerator:
                     return "1"
                 raise RuntimeError(f'"{self._hardcoded_value}" is not a valid bool value.')
             elif isinstance(type_, StringType):
-                return f'"{self._hardcoded_value}"'
+                return _string_literal(self._hardcoded_value)
             else:
                 raise AssertionError("Unhandled BasicType")
         else:
@@ -719,6 +719,11 @@ class FieldCodeGeneratorBuilder:
             self._length_field,
             self._offset,
         )
+
+
+def _string_literal(value):
+    escaped = value.encode('unicode_escape').decode('ascii').replace('"', '\\"')
+    return f'"{escaped}"'
 
 
 def get_max_value_of(integer_type):
